@@ -1,14 +1,14 @@
 SPECIFICATION Spec
 CONSTANTS
-  Peers = {p1, p2}
+  Peers = {p1, p2, p3}
   PeerSeq <- PSAll
   Trees = {t1}
   Acl <- None
   Kv <- None
-  Changes = {c1, c2}
-  MaxPend = 2
+  Changes = {c1}
+  MaxPend = 1
   Dev <- None
-  Budget <- Bq
+  Budget <- Bp3
 SYMMETRY Sym
 INVARIANT TypeOK
 INVARIANT IdxFollowsStore
